@@ -234,19 +234,24 @@ func Run(c Case) (*Report, error) {
 		return rep, err
 	}
 	for _, p := range n.Parties {
-		o := p.Outcome()
-		rep.Outcome[p.ID] = o
-		// relay: the delivery that ended the session was an abort notice, and its origin is what the party names
-		for _, e := range p.Log {
-			if e.Accepted && !e.ClosedBefore && e.ClosedAfter {
-				if e.M.RoundNumber == 0 && o.Aborted && len(o.Culprits) == 1 && o.Culprits[0] == e.M.From {
-					rep.Relayed[p.ID] = true
-				}
-				break
-			}
-		}
+		rep.Collect(p, p.ID)
 	}
 	return rep, nil
+}
+
+// Collect records the outcome of one party and whether it ended because it was handed an abort notice.
+func (rep *Report) Collect(p *sim.Party, id party.ID) {
+	o := p.Outcome()
+	rep.Outcome[id] = o
+	// relay: the delivery that ended the session was an abort notice, and its origin is what the party names
+	for _, e := range p.Log {
+		if e.Accepted && !e.ClosedBefore && e.ClosedAfter {
+			if e.M.RoundNumber == 0 && o.Aborted && len(o.Culprits) == 1 && o.Culprits[0] == e.M.From {
+				rep.Relayed[id] = true
+			}
+			break
+		}
+	}
 }
 
 // WrongResult is the C03 oracle: an honest party that finished must hold a correct result.
